@@ -5,6 +5,7 @@ mod delivery;
 mod durability;
 mod fragdirect;
 mod keeplast;
+mod lifespan;
 mod oversleep;
 
 use common::Shard;
@@ -19,6 +20,7 @@ fn main() {
         "c03" => acks::run(&shard),
         "c04" => durability::run(&shard),
         "c27" => keeplast::run(&shard),
+        "c29" => lifespan::run(&shard),
         "c31" => oversleep::run(&shard),
         "c02" => delivery::run(&shard, "C02", delivery::Mode::BestEffort),
         "c05" => {
